@@ -2,8 +2,8 @@
 REG_DRAFT = dict(
     engine='E3-sched',
     technique='exhaustive fault (interrupt) injection at every interpreter step of each corpus program, and at every pair / triple of steps, on the real JSON-session handler; resumed to completion and compared with the uninterrupted run',
-    text="For each program of a hand-written corpus (one construct per program, covering every Expression_ variant in every ExpressionState of eval_expr, plus programs ending in each kind of runtime error): T = interpreter steps of the uninterrupted session run. The interrupt flag is raised at EVERY step k in 1..T (hook in the eval loop), then `:resume` is sent until the evaluation finishes; every pair of interrupt points for T <= 40 (quick) / 80 (thorough) and every triple for T <= 20 (thorough), including re-interrupting the step that was just resumed. Oracle: the sequence of printed chunks (stdout and stderr) and the final value or error (message and position) equal those of the uninterrupted run, and every injection produces exactly one `interrupted` response. Also: the uninterrupted session outcome equals the plain `run` outcome. Fault enumeration is the right level: the property quantifies over crash points of a deterministic evaluation.",
-    note="Injection is deterministic (cumulative step counter in the worker), not a real Ctrl-C; the interrupt request path of json_session::handle_request (flag set from the reader thread) is mirrored by the hook. Programs are small (T <= 150) and single-request; definitions are loaded in a separate request that takes no step. A trailing `for` loop is avoided (a session `run` request only enters it). Assertion failures are rendered 'Assertion failed' by the first response and in full by :resume; only the prefix and the position are compared there.",
+    text="For each program of a hand-written corpus (one construct per program, covering every Expression_ variant in every ExpressionState of eval_expr, plus programs ending in each kind of runtime error): T = interpreter steps of the uninterrupted session run. The interrupt flag is raised at EVERY step k in 1..T (hook in the eval loop), then `:resume` is sent until the evaluation finishes; every pair of interrupt points for T <= 40 (quick) / all programs (thorough) and every triple for T <= 24 (thorough), including re-interrupting the step that was just resumed. Oracle: the sequence of printed chunks (stdout and stderr) and the final value or error (message and position) equal those of the uninterrupted run, and every injection produces exactly one `interrupted` response. Also: the uninterrupted session outcome equals the plain `run` outcome. Fault enumeration is the right level: the property quantifies over crash points of a deterministic evaluation.",
+    note="Injection is deterministic (cumulative step counter in the worker), not a real Ctrl-C; the interrupt request path of json_session::handle_request (flag set from the reader thread) is mirrored by the hook. Programs are small (T <= 150) and single-request; definitions are loaded in a separate request that takes no step. Assertion failures are rendered 'Assertion failed' by the first response and in full by :resume; only the prefix and the position are compared there.",
     design_ref='DESIGN.md §6 C08',
     level='fault_enumeration',
 )
@@ -154,8 +154,8 @@ def run(ctx):
     names = [p[0] for p in progs]
     if len(set(names)) != len(names):
         raise Machinery("duplicate corpus program name")
-    pair_T = 40 if ctx.quick else 80
-    triple_T = 0 if ctx.quick else 20
+    pair_T = 40 if ctx.quick else 150
+    triple_T = 0 if ctx.quick else 24
     ctx.bound("corpus_programs", len(progs))
     ctx.bound("pairs_for_T<=", pair_T)
     ctx.bound("triples_for_T<=", triple_T)
